@@ -328,6 +328,13 @@ def decl_cells():
     pairs = {
         "return-value-in-void-function": ("function v() -> void { return 1; }", "function v() -> void { return; }"),
         "bare-return-in-int-function": ("function v() -> int { return; }", "function v() -> int { return 1; }"),
+        # cells that the unchanged tree gets wrong and that are recorded as open known findings (known_findings.jsonl)
+        "class-name-used-as-instance": ("function v() -> void { Priv kf = Priv; }", "function v() -> void { Priv kf = new Priv(); }"),
+        "final-field-assigned-again-after-top-level-return": ("class M { public final int f; public constructor() -> M { this.f = 1; return this; this.f = 2; } }", "class M { public final int f; public constructor() -> M { this.f = 1; return this; } }"),
+        "final-field-skipped-by-early-return": ("class M { public final int f; public constructor(boolean c) -> M { if (c) { return this; } this.f = 1; } }", "class M { public final int f; public constructor(boolean c) -> M { this.f = 1; if (c) { return this; } } }"),
+        "assignment-expression-of-int-into-string": ("function v() -> void { int n = 0; string s5 = (n = 5); }", "function v() -> void { int n = 0; int s5 = (n = 5); }"),
+        "missing-return-in-method": ("class M { public constructor() -> M = default; public function v() -> int { int a = 1; } }", "class M { public constructor() -> M = default; public function v() -> int { int a = 1; return a; } }"),
+        "missing-return-in-static-method": ("class M { public constructor() -> M = default; public static function v() -> string { echo(1); } }", "class M { public constructor() -> M = default; public static function v() -> string { echo(1); return \"s\"; } }"),
         "return-value-in-destructor": ("class M { public constructor() -> M = default; public destructor() -> void { echo(1); return 5; } }", "class M { public constructor() -> M = default; public destructor() -> void { echo(1); return; } }"),
         "missing-return": ("function v() -> int { int a = 1; }", "function v() -> int { int a = 1; return a; }"),
         "return-value-in-void-method": ("class M { public constructor() -> M = default; public function v() -> void { return 1; } }", "class M { public constructor() -> M = default; public function v() -> void { return; } }"),
@@ -394,6 +401,7 @@ def decl_cells():
             continue
         yield ("decl:" + name, S + bad + "\nfunction main() -> void { }\n", False)
         yield ("decl:" + name + ":twin", S + good + "\nfunction main() -> void { }\n", True)
+    yield ("decl:return-array-literal:twin", S + "function v() -> int[] { return {1, 2}; }\nfunction main() -> void { }\n", True)
     yield ("decl:quantum-on-main", S + "@quantum function main() -> void { }\n", False)
     yield ("decl:shots-on-main:twin", S + "@shots(2) function main() -> void { }\n", True)
     yield ("decl:private-field-same-class-other-instance:twin", S + "class M { private int s = 1; public constructor() -> M = default; public function v(M o) -> int { return o.s + this.s; } }\nfunction main() -> void { }\n", True)
